@@ -146,6 +146,13 @@ def conform(cx, rows, prefix, nshards=None):
             m = re.match(r'^<<"UNKNOWN", (-?\d+)>>$', ln)
             if m:
                 unknown.append(int(m.group(1)))
+                continue
+            m = re.match(r'^<<"KNOWNCLONE", (-?\d+)>>$', ln)
+            if m:
+                # the real code agrees with the pinned model where the property's design differs (known finding)
+                if not hasattr(cx, "known_clone"):
+                    cx.known_clone = set()
+                cx.known_clone.add((prefix, int(m.group(1))))
         r.lines = []
         r.out = ""
     for p in paths:
@@ -398,8 +405,9 @@ def run(cx):
         o = drive(cx, drv, [w], "witness")
         row = dict(w)
         row["obs"] = slim(o[0])
+        before = len(getattr(cx, "known_clone", ()))
         wm, _, _ = conform(cx, [row], "wit", nshards=1)
-        if wm:
+        if wm or (f["id"] == "clone-imports-not-shared" and len(getattr(cx, "known_clone", ())) > before):
             cx.report_known(f)
         else:
             cx.notes.append("known finding %s: witness no longer fails" % f["id"])
